@@ -14,6 +14,7 @@ Definition munches (l : lexeme) : Prop :=
 (* helpers *)
 Ltac lnorm := repeat (progress (cbn [app]; rewrite <- ?app_assoc)).
 Ltac len := repeat (progress (rewrite ?app_length; cbn [length app])); lia.
+Ltac fin := match goal with |- Val (_, (_, ?p)) = Val (_, (_, ?q)) => replace q with p by len end; try reflexivity.
 Lemma bytes_eqb_eq a : forall b, bytes_eqb a b = true -> a = b.
 Proof.
   induction a as [|x a IH]; intros [|y b] H; cbn in H; try discriminate; [reflexivity |].
@@ -228,4 +229,235 @@ Proof.
     rewrite B46. cbn [bind]. rewrite <- ER.
     rewrite (num_exp_stage bs _ ex r _ OKE ND FE). fold et.
     unfold op. f_equal. f_equal. f_equal. len.
+Qed.
+
+(* ---------------------------------------------------------------------------------------------- *)
+(* first byte of an encoded code point; reducing a match on a non-empty text *)
+Lemma match_ne {A B} (l : list A) (a b : B) : l <> [] -> match l with [] => a | _ :: _ => b end = b.
+Proof. destruct l; [congruence | reflexivity]. Qed.
+
+Lemma enc_app_ne x rest : encode_rune x ++ rest <> [].
+Proof. pose proof (encode_ne x). destruct (encode_rune x); [congruence | discriminate]. Qed.
+
+Lemma first_byte_enc x b t : encode_rune x = b :: t -> (x < 128 /\ b = x /\ t = []) \/ (128 <= x /\ 128 <= b).
+Proof.
+  intros E. destruct (N.lt_ge_cases x 128) as [L|G].
+  - left. rewrite encode_ascii in E by exact L. injection E as <- <-. auto.
+  - right. split; [exact G |]. pose proof (encode_hi x G) as F. rewrite E in F. inversion F; assumption.
+Qed.
+
+(* the first byte of the encoding of an identifier-start code point is no digit, none of '>' '@' '$' *)
+Lemma start_first_byte x rest : is_ident_start x = true ->
+  exists b t, encode_rune x ++ rest = b :: t /\ b <> 62 /\ b <> 64 /\ b <> 36 /\ digit_byte b = false /\
+              is_digit x = false /\ (x =? 36) = false.
+Proof.
+  intros IS. destruct (encode_rune x) as [|b t] eqn:E; [destruct (encode_ne x E) |].
+  exists b, (t ++ rest). split; [reflexivity |].
+  destruct (first_byte_enc _ _ _ E) as [(L & -> & _)|(G & GB)].
+  - destruct (ascii_class x L) as [A _]. rewrite A in IS. unfold ascii_start, in_rng in IS.
+    unfold digit_byte, is_digit, in_rng. repeat split; lia.
+  - unfold digit_byte, is_digit, in_rng. repeat split; lia.
+Qed.
+
+Lemma word_shape_inv rs : word_shape rs = true ->
+  exists r0 rtl, rs = r0 :: rtl /\ is_ident_start r0 = true /\ scalar r0 = true /\
+                 forallb is_ident_part rtl = true /\ forallb scalar rtl = true.
+Proof.
+  unfold word_shape. destruct rs as [|r0 rtl]; [discriminate |]. intros H.
+  apply andb_prop in H. destruct H as [H S]. apply andb_prop in H. destruct H as [H1 H2].
+  cbn [forallb] in S. apply andb_prop in S. destruct S as [S1 S2]. exists r0, rtl. auto.
+Qed.
+
+(* @name *)
+Lemma munch_LParamAt rs : munches (LParamAt rs).
+Proof.
+  intros bs r i OK FO. cbn [lex_ok class_follow render tok_of] in *.
+  destruct (word_shape_inv _ OK) as (r0 & rtl & -> & IS & SC & IP & SS).
+  cbn [utf8 flat_map app length]. fold (utf8 rtl). rewrite <- app_assoc.
+  destruct (start_first_byte r0 (utf8 rtl ++ r) IS) as (b0 & t0 & E & N62 & N64 & _).
+  dispatch_punct. cbn [N.eqb Pos.eqb]. unfold adv, nxt, is_b, op. cbn [fst snd skipn].
+  rewrite E.
+  replace (b0 =? 62) with false by (symmetry; apply N.eqb_neq; exact N62).
+  replace (b0 =? 64) with false by (symmetry; apply N.eqb_neq; exact N64).
+  rewrite <- E. rewrite (decode_encode r0 _ SC). rewrite IS.
+  rewrite adv_rune_app by apply encode_ne.
+  rewrite span_utf8 by assumption. cbn [bind]. rewrite firstn_app_len.
+  f_equal. f_equal. f_equal. len.
+Qed.
+
+(* ---------------------------------------------------------------------------------------------- *)
+(* back-ticked identifier *)
+Lemma backtick_body_spec bs start items : forall r p buf,
+  forallb bitem_ok items = true -> next_byte_not [96] r = true ->
+  backtick_body bs start (flat_map bitem_text items ++ 96 :: r) p buf =
+  Val ((TT_Identifier, buf ++ flat_map bitem_value items, 96),
+       (r, p + N.of_nat (length (flat_map bitem_text items)) + 1)).
+Proof.
+  induction items as [|[b|] items IH]; intros r p buf OK FO.
+  - cbn [flat_map app length backtick_body N.eqb Pos.eqb]. rewrite app_nil_r, N.add_0_r.
+    destruct r as [|x r']; [reflexivity |].
+    cbn [next_byte_not existsb] in FO. apply negb_true_iff, orb_false_iff in FO. destruct FO as [FO _].
+    rewrite FO. reflexivity.
+  - cbn [forallb bitem_ok] in OK. apply andb_prop in OK. destruct OK as [NB OK]. apply negb_true_iff in NB.
+    cbn [flat_map bitem_text bitem_value app backtick_body]. rewrite NB.
+    assert (R : backtick_body bs start (flat_map bitem_text items ++ 96 :: r) (p + 1) (buf ++ [b]) =
+                Val ((TT_Identifier, buf ++ b :: flat_map bitem_value items, 96),
+                     (r, p + N.of_nat (length (b :: flat_map bitem_text items)) + 1))).
+    { rewrite IH by assumption. rewrite <- app_assoc. cbn [app length]. f_equal. f_equal. f_equal. lia. }
+    destruct (b =? 10); exact R.
+  - cbn [forallb bitem_ok] in OK.
+    cbn [flat_map bitem_text bitem_value app backtick_body N.eqb Pos.eqb].
+    rewrite IH by assumption. rewrite <- app_assoc. cbn [app length]. f_equal. f_equal. f_equal. lia.
+Qed.
+
+Lemma munch_LBId items : munches (LBId items).
+Proof.
+  intros bs r i OK FO. cbn [lex_ok class_follow render tok_of] in *.
+  cbn [app]. rewrite <- app_assoc. cbn [app].
+  unfold next_token. cbn [fst]. rewrite decode_ascii by lia.
+  destruct dispatch_bt as (A & B & C). rewrite A, B, C. cbn [N.eqb Pos.eqb orb].
+  unfold read_backtick. cbn [fst snd].
+  rewrite backtick_body_spec by assumption. cbn [app]. fin.
+Qed.
+
+(* ---------------------------------------------------------------------------------------------- *)
+(* single-quoted strings *)
+Lemma adv_app2 a b rest p : adv (a ++ b ++ rest, p) (length a + length b) = (rest, p + N.of_nat (length a + length b)).
+Proof. rewrite app_assoc, <- app_length. apply adv_app. Qed.
+
+Lemma escape_spec bs e rest p : In e [92; 34; 39; 96; 110; 114; 116] ->
+  escape bs (92 :: e :: rest, p) = Val (esc_value e, (rest, p + 1 + 1)).
+Proof. intros H. cbn [In] in H. repeat (destruct H as [<-|H]; [reflexivity |]). contradiction. Qed.
+
+Lemma existsb_eqb_in e l : existsb (N.eqb e) l = true -> In e l.
+Proof. intros H. apply existsb_exists in H. destruct H as (x & I & E). apply N.eqb_eq in E. subst. exact I. Qed.
+
+Lemma sitems_len items : (length items <= length (flat_map sitem_text items))%nat.
+Proof.
+  induction items as [|it items IH]; [cbn; lia |]. cbn [flat_map length]. rewrite app_length.
+  assert (1 <= length (sitem_text it))%nat; [| lia].
+  destruct it as [x|a b|e]; cbn [sitem_text length]; try lia.
+  - pose proof (encode_len x). lia.
+  - rewrite app_length. pose proof (encode_len a). lia.
+Qed.
+
+Lemma string_body_spec bs start original cl items : forall fuel r p buf,
+  forallb sitem_ok items = true -> scalar cl = true -> normalize_quote cl = 39 ->
+  next_rune_not (fun x => normalize_quote x =? 39) r = true -> (length items < fuel)%nat ->
+  string_body bs fuel start original 39 (flat_map sitem_text items ++ encode_rune cl ++ r, p) buf =
+  Val ((string_type original, buf ++ flat_map sitem_value items, original),
+       (r, p + N.of_nat (length (flat_map sitem_text items ++ encode_rune cl)))).
+Proof.
+  induction items as [|it items IH]; intros fuel r p buf OK SC NC FO Hf; (destruct fuel as [|f]; [cbn in Hf; lia |]).
+  - cbn [flat_map app string_body fst]. rewrite match_ne by apply enc_app_ne.
+    rewrite (decode_encode cl _ SC). cbv beta iota zeta. rewrite NC. cbn [N.eqb Pos.eqb].
+    rewrite skipn_app_len, adv_app, app_nil_r.
+    destruct r as [|x r']; [reflexivity |].
+    unfold next_rune_not in FO. destruct (decode_rune (x :: r')) as [nr0 nsz]. cbn [fst] in FO.
+    apply negb_true_iff in FO. rewrite FO. reflexivity.
+  - cbn [forallb] in OK. apply andb_prop in OK. destruct OK as [OK1 OK]. cbn [length] in Hf.
+    destruct it as [x|a b|e]; cbn [sitem_ok] in OK1; cbn [flat_map sitem_text sitem_value].
+    + apply andb_prop in OK1. destruct OK1 as [OK1 N92]. apply andb_prop in OK1. destruct OK1 as [SX N39].
+      apply negb_true_iff in N92, N39.
+      rewrite <- !app_assoc. cbn [string_body fst]. rewrite match_ne by apply enc_app_ne.
+      rewrite (decode_encode x _ SX). cbv beta iota zeta. rewrite N39, N92. rewrite adv_app.
+      assert (R : string_body bs f start original 39
+                    (flat_map sitem_text items ++ encode_rune cl ++ r, p + N.of_nat (length (encode_rune x)))
+                    (buf ++ encode_rune (normalize_quote x)) =
+                  Val ((string_type original, buf ++ encode_rune (normalize_quote x) ++ flat_map sitem_value items, original),
+                       (r, p + N.of_nat (length (encode_rune x ++ flat_map sitem_text items ++ encode_rune cl))))).
+      { rewrite IH by (auto; lia). rewrite <- app_assoc. fin. }
+      destruct (normalize_quote x =? 10); exact R.
+    + apply andb_prop in OK1. destruct OK1 as [OK1 NB]. apply andb_prop in OK1. destruct OK1 as [OK1 NA].
+      apply andb_prop in OK1. destruct OK1 as [SA SB]. apply N.eqb_eq in NA, NB.
+      rewrite <- !app_assoc. cbn [string_body fst]. rewrite match_ne by apply enc_app_ne.
+      rewrite (decode_encode a _ SA). cbv beta iota zeta. rewrite NA. cbn [N.eqb Pos.eqb].
+      rewrite skipn_app_len. rewrite match_ne by apply enc_app_ne.
+      rewrite (decode_encode b _ SB). cbv beta iota zeta. rewrite NB. cbn [N.eqb Pos.eqb].
+      rewrite adv_app2. rewrite IH by (auto; lia). rewrite <- app_assoc. fin.
+    + apply existsb_eqb_in in OK1.
+      cbn [app string_body fst]. rewrite decode_ascii by lia. cbv beta iota zeta.
+      destruct (ascii_class 92 ltac:(lia)) as (_ & _ & -> & _). cbn [N.eqb Pos.eqb].
+      rewrite (escape_spec bs e _ p OK1). cbn [bind].
+      rewrite IH by (auto; lia). rewrite <- app_assoc. fin.
+Qed.
+
+Lemma family_in op : is_single_quote_family op = true -> In op sq_family.
+Proof.
+  unfold is_single_quote_family, sq_family. rewrite !orb_true_iff, !N.eqb_eq. cbn [In]. intuition.
+Qed.
+
+Lemma family_facts op : is_single_quote_family op = true ->
+  is_ident_start op = false /\ is_digit op = false /\ (op =? 34) = false /\ is_unicode_quote op = false /\ (op =? 96) = false.
+Proof.
+  intros H. apply family_in in H. pose proof sq_family_dispatch as F. rewrite forallb_forall in F.
+  specialize (F _ H). rewrite !andb_true_iff, !negb_true_iff in F. intuition.
+Qed.
+
+Lemma decode_first_39 b t : fst (decode_rune (b :: t)) = 39 -> b = 39.
+Proof.
+  intros H. assert (X : fst (decode_rune (b :: t)) < 128) by lia. apply decode_lt128 in X. destruct X as [X _]. congruence.
+Qed.
+
+Lemma enc_first_39 x rest t : encode_rune x ++ rest = 39 :: t -> x = 39 /\ rest = t.
+Proof.
+  intros H. destruct (encode_rune x) as [|b bt] eqn:E; [destruct (encode_ne x E) |].
+  cbn [app] in H. injection H as -> H.
+  destruct (first_byte_enc _ _ _ E) as [(_ & <- & ->)|(_ & G)]; [auto | lia].
+Qed.
+
+Lemma no_triple_aux op cl items r x0 x1 x2 t :
+  is_single_quote_family op = true -> normalize_quote cl = 39 -> forallb sitem_ok items = true ->
+  (match items with SQuote2 a b :: _ => negb ((op =? 39) && (a =? 39) && (b =? 39)) | _ => true end) = true ->
+  next_rune_not (fun x => normalize_quote x =? 39) r = true ->
+  encode_rune op ++ flat_map sitem_text items ++ encode_rune cl ++ r = x0 :: x1 :: x2 :: t ->
+  (fst (decode_rune (x1 :: x2 :: t)) =? op) && (fst (decode_rune (x2 :: t)) =? op) = true -> False.
+Proof.
+  intros FAM NC OK TR FO E T. apply andb_prop in T. destruct T as [T1 T2]. apply N.eqb_eq in T1, T2.
+  apply family_in in FAM. unfold sq_family in FAM. cbn [In] in FAM.
+  destruct FAM as [<-|[<-|[<-|[<-|[<-|[]]]]]].
+  - change (encode_rune 39) with [39] in E. cbn [app] in E. injection E as _ E.
+    apply decode_first_39 in T1, T2. subst x1 x2.
+    assert (N39 : normalize_quote 39 = 39) by (destruct (ascii_class 39 ltac:(lia)) as (_ & _ & X & _); exact X).
+    destruct items as [|[x|a b|e] items].
+    + cbn [flat_map app] in E. apply enc_first_39 in E. destruct E as [-> ->].
+      unfold next_rune_not in FO. rewrite decode_ascii in FO by lia. cbn [fst] in FO. rewrite N39 in FO. discriminate.
+    + cbn [flat_map sitem_text] in E. rewrite <- app_assoc in E. apply enc_first_39 in E. destruct E as [-> _].
+      cbn [forallb sitem_ok] in OK. rewrite N39 in OK. apply andb_prop in OK. destruct OK as [OK _].
+      apply andb_prop in OK. destruct OK as [OK _]. apply andb_prop in OK. destruct OK as [_ OK]. cbn in OK. discriminate.
+    + cbn [flat_map sitem_text] in E. rewrite <- !app_assoc in E. apply enc_first_39 in E. destruct E as [-> E].
+      apply enc_first_39 in E. destruct E as [-> _]. discriminate.
+    + cbn [flat_map sitem_text app] in E. discriminate.
+  - change (encode_rune 8216) with [226; 128; 152] in E. cbn [app] in E. injection E as _ <- <- _.
+    vm_compute in T1. discriminate.
+  - change (encode_rune 8217) with [226; 128; 153] in E. cbn [app] in E. injection E as _ <- <- _.
+    vm_compute in T1. discriminate.
+  - change (encode_rune 171) with [194; 171] in E. cbn [app] in E. injection E as _ <- _.
+    vm_compute in T1. discriminate.
+  - change (encode_rune 187) with [194; 187] in E. cbn [app] in E. injection E as _ <- _.
+    vm_compute in T1. discriminate.
+Qed.
+
+Lemma munch_LSStr op cl items : munches (LSStr op cl items).
+Proof.
+  intros bs r i OK FO. cbn [lex_ok class_follow render tok_of] in *.
+  apply andb_prop in OK. destruct OK as [OK TR]. apply andb_prop in OK. destruct OK as [OK IT].
+  apply andb_prop in OK. destruct OK as [OK NC]. apply andb_prop in OK. destruct OK as [OK SC].
+  apply andb_prop in OK. destruct OK as [OK NO]. apply andb_prop in OK. destruct OK as [FAM SO].
+  apply N.eqb_eq in NC, NO.
+  destruct (family_facts op FAM) as (F1 & F2 & F3 & F4 & F5).
+  rewrite <- !app_assoc.
+  unfold next_token. cbn [fst]. rewrite match_ne by apply enc_app_ne.
+  rewrite (decode_encode op _ SO). cbv beta iota zeta. rewrite F1, F2, F3, F4, F5, FAM. cbn [orb].
+  unfold read_quoted_string. cbn [fst snd].
+  match goal with |- context [if ?b then _ else _] => destruct b eqn:T end.
+  - exfalso.
+    remember (encode_rune op ++ flat_map sitem_text items ++ encode_rune cl ++ r) as X eqn:EX.
+    destruct X as [|x0 [|x1 [|x2 t]]]; try discriminate T.
+    eapply no_triple_aux; eauto.
+  - rewrite (decode_encode op _ SO). cbv beta iota zeta. rewrite NO.
+    rewrite adv_rune_app by apply encode_ne. cbn [fst].
+    rewrite string_body_spec; auto.
+    + unfold string_type. rewrite FAM. cbn [app]. fin.
+    + pose proof (sitems_len items). rewrite !app_length. lia.
 Qed.
